@@ -116,6 +116,319 @@ def gen(tier, seed):
     return cases
 
 
+# ------------------------------------------------------------------ module level: Type.resolve's use sites
+# A module is a list of nodes {name, parent (builtin kind or typedef name), text (restriction or None), leaf, fd}.
+# Model side: fold Range.parseChildRanges (the proved model) along every derivation chain, parent = result of the
+# previous link, base = the builtin range of the kind (lengths: 0..2^64-1; decimal64: +-2^63 mantissas at fd).
+# Implementation side: the module text through Modules.Parse / Process (twice), resolved sets read off the leaves.
+INT_KINDS = {"int8": (-128, 127), "int16": (-32768, 32767), "int32": (-(1 << 31), (1 << 31) - 1), "int64": (-P63, P63 - 1),
+             "uint8": (0, 255), "uint16": (0, 65535), "uint32": (0, (1 << 32) - 1), "uint64": (0, P64 - 1)}
+LEN_KINDS = ("string", "binary")
+
+
+def kind_info(kind, fd):
+    """(is_length, dec, fd, lo, hi) of a builtin kind"""
+    if kind in INT_KINDS:
+        return False, 0, 0, INT_KINDS[kind][0], INT_KINDS[kind][1]
+    if kind in LEN_KINDS:
+        return True, 0, 0, 0, P64 - 1
+    return False, 1, fd, -P63, P63 - 1
+
+
+def short_lit(v, fd, rnd):
+    t = lit(v, fd)
+    if fd and rnd.random() < 0.5:
+        t = t.rstrip("0")
+        if t.endswith("."):
+            t = t[:-1] if rnd.random() < 0.7 else t + "0"
+    return t
+
+
+def render_mod(mod):
+    out = ['module %s { prefix "t"; namespace "urn:%s";' % (mod["name"], mod["name"])]
+    for n in mod["nodes"]:
+        kw = "range" if not mod["length"] else "length"
+        body = ""
+        if n["parent"] == "decimal64":
+            body += " fraction-digits %d;" % mod["fd"]
+        if n["text"] is not None:
+            body += ' %s "%s";' % (kw, n["text"])
+        ty = "type %s {%s }" % (n["parent"], body) if body else "type %s;" % n["parent"]
+        out.append(" %s %s { %s }" % ("leaf" if n["leaf"] else "typedef", n["name"], ty))
+    out.append("}")
+    return "\n".join(out)
+
+
+def model_fold(mods):
+    """sets n['m'] for every node: ('ok', range-token | None) | ('err',) | ('skip',) (an ancestor was rejected / unmodelled)"""
+    todo = []
+    for mod in mods:
+        isl, dec, fd, lo, hi = kind_info(mod["kind"], mod["fd"])
+        mod["length"], mod["dec"] = isl, dec
+        byname = {n["name"]: n for n in mod["nodes"]}
+        for n in mod["nodes"]:
+            n.pop("m", None)
+            n["_p"] = byname.get(n["parent"])
+        mod["_base"] = ("ok", None if isl else rng([(lo, hi)], fd))
+        todo.extend((mod, n) for n in mod["nodes"])
+    evals = 0
+    while todo:
+        batch, rest = [], []
+        for mod, n in todo:
+            pm = mod["_base"] if n["_p"] is None else n["_p"].get("m")
+            if pm is None:
+                rest.append((mod, n))
+            elif pm[0] != "ok":
+                n["m"] = ("skip",)
+            elif n["text"] is None:
+                n["m"] = pm
+            else:
+                ptok = pm[1] if pm[1] is not None else rng([(0, P64 - 1)], 0)
+                batch.append((n, "ranges %s %s %d %d" % (ptok, hexs(n["text"]), mod["dec"], mod["fd"] if mod["dec"] else 0)))
+        if batch:
+            outs = lib.run_ml([c for _, c in batch])
+            evals += len(batch)
+            for (n, _), o in zip(batch, outs):
+                t = o.split()
+                n["m"] = ("ok", t[1] if len(t) > 1 else "-") if t[0] == "ok" else ("err",) if t[0] == "err" else ("skip",)
+        elif len(rest) == len(todo):
+            for _, n in rest:      # parent is not a node of the module (never generated)
+                n["m"] = ("skip",)
+            rest = []
+        todo = rest
+    for mod in mods:
+        for n in mod["nodes"]:
+            n.pop("_p", None)
+        mod.pop("_base", None)
+    return evals
+
+
+def prune(mods, rnd):
+    """keep at most one rejected restriction per module (Process reports all errors or none) and nothing below a
+    rejected one; in half of the modules keep none, so that the resolved sets of the accepted ones are compared"""
+    for mod in mods:
+        bad = [n for n in mod["nodes"] if n["m"][0] == "err"]
+        keep = rnd.choice(bad)["name"] if bad and (mod["name"].startswith("f") or rnd.random() < 0.5) else None
+        mod["nodes"] = [n for n in mod["nodes"] if n["m"][0] == "ok" or n["name"] == keep]
+        mod["reject"] = keep
+
+
+def tok_vals(tok):
+    if tok in (None, "-"):
+        return []
+    out = []
+    for part in tok.split(","):
+        ab = []
+        for x in part.split("~"):
+            v, _, neg = x.split(":")
+            ab.append(-int(v) if neg == "1" else int(v))
+        out.append(tuple(ab))
+    return out
+
+
+def text_vals(t, fd):
+    if not t:
+        return []
+    out = []
+    for part in t.split("|"):
+        ab = []
+        for x in part.split(".."):
+            neg = x.startswith("-")
+            x = x.lstrip("-")
+            i, _, f = x.partition(".")
+            v = int(i + f.ljust(fd, "0")[:max(fd, len(f))]) if fd else int(i)
+            ab.append(-v if neg else v)
+        out.append(tuple(ab))
+    return out
+
+
+def go_line(mod, ops="L0,P,P"):
+    return "process - %s 1 %s %s" % (ops, hexs(mod["name"] + ".yang"), hexs(render_mod(mod)))
+
+
+def compare_mod(mod, goline):
+    """returns None or a description of the disagreement"""
+    import json
+    try:
+        j = json.loads(goline)
+    except Exception:
+        return "implementation output unreadable: %s" % goline[:200]
+    if j["loads"] != ["ok"]:
+        return "module not loaded: %s" % j["loads"]
+    for ri, r in enumerate(j["runs"]):
+        if mod["reject"] is not None:
+            if not r["errors"]:
+                return "run %d: restriction on '%s' admits values outside its parent's set (model: error) but Process reported no error" % (ri, mod["reject"])
+            continue
+        if r["errors"]:
+            return "run %d: model accepts every restriction, Process reported %s" % (ri, r["errors"][:2])
+        leaves = {c["name"]: c for m in r["modules"] for c in (m["tree"].get("children") or [])}
+        for n in mod["nodes"]:
+            if not n["leaf"]:
+                continue
+            c = leaves.get(n["name"])
+            if c is None or not c.get("type"):
+                return "run %d: leaf %s missing" % (ri, n["name"])
+            got = text_vals(c["type"].get("length" if mod["length"] else "range", ""), mod["fd"] if mod["dec"] else 0)
+            want = tok_vals(n["m"][1])
+            if got != want:
+                return "run %d: leaf %s resolved to %s, model %s" % (ri, n["name"], got[:6], want[:6])
+    return None
+
+
+def pick_points(rnd, A, B, k):
+    cand = set()
+    for base in (A, B, (A + B) // 2, 0):
+        for d in (-11, -10, -6, -5, -2, -1, 0, 1, 2, 5, 6, 10, 11, 50, -50):
+            cand.add(base + d)
+    span = B - A
+    for _ in range(8):
+        cand.add(A + rnd.randint(0, span))
+        cand.add(A + rnd.randint(0, min(span, 200)))
+        cand.add(B - rnd.randint(0, min(span, 200)))
+    cand = sorted(x for x in cand if A <= x <= B)
+    return sorted(rnd.sample(cand, min(k, len(cand))))
+
+
+def parts_text(rnd, pts, A, B, fd, n_parts, anchor):
+    """n_parts increasing parts over the sorted points; anchor: first part starts at A and last ends at B"""
+    need = 2 * n_parts
+    if len(pts) < need:
+        n_parts = max(1, len(pts) // 2)
+        need = 2 * n_parts
+    idx = sorted(rnd.sample(range(len(pts)), need))
+    q = [pts[i] for i in idx]
+    if anchor:
+        q[0], q[-1] = A, B
+    ps = []
+    for i in range(n_parts):
+        a, b = q[2 * i], q[2 * i + 1]
+        sa = "min" if a == A and rnd.random() < 0.5 else short_lit(a, fd, rnd)
+        sb = "max" if b == B and rnd.random() < 0.5 else short_lit(b, fd, rnd)
+        ps.append(sa if a == b and rnd.random() < 0.5 and sa != "min" else sa + ".." + sb)
+    if rnd.random() < 0.15:
+        rnd.shuffle(ps)
+    return rnd.choice(["|", " | ", "| "]).join(ps)
+
+
+def gen_family(rnd, idx, kind=None):
+    kind = kind or rnd.choice(list(INT_KINDS) * 2 + list(LEN_KINDS) * 3 + ["decimal64"] * 8)
+    fd = rnd.choice([1, 2, 3, 9, 17, 18]) if kind == "decimal64" else 0
+    isl, dec, fd, KLO, KHI = kind_info(kind, fd)
+    nodes = []
+    mode = rnd.random()
+    if mode < 0.3:
+        A, B = KLO, KHI
+    else:
+        w = rnd.choice([20, 100, 100, 1000, 10 ** 6]) * (10 ** max(0, fd - 1) if fd and rnd.random() < 0.7 else 1)
+        w = min(w, KHI - KLO)
+        c = rnd.choice([KLO, KHI - w, max(KLO, -w // 2), max(KLO, 1), max(KLO, min(KHI - w, rnd.randint(-1000, 1000)))])
+        A = max(KLO, min(c, KHI - w))
+        B = A + w
+    pts = pick_points(rnd, A, B, 14)
+    whole_text = None if (A, B) == (KLO, KHI) and rnd.random() < 0.5 else \
+        ("min..max" if (A, B) == (KLO, KHI) else "%s..%s" % (short_lit(A, fd, rnd), short_lit(B, fd, rnd)))
+    nodes.append(dict(name="whole", parent=kind, text=whole_text, leaf=False))
+    parents = ["whole"]
+    for h in range(rnd.randint(1, 3)):
+        nm = "holed%d" % h
+        nodes.append(dict(name=nm, parent=rnd.choice(["whole"] * 3 + parents), leaf=False,
+                          text=parts_text(rnd, pts, A, B, fd, rnd.randint(2, 3), rnd.random() < 0.8)))
+        parents.append(nm)
+    if rnd.random() < 0.5:
+        nodes.append(dict(name="alias", parent=rnd.choice(parents), text=None, leaf=False))
+        parents.append("alias")
+    if rnd.random() < 0.5:
+        nodes.append(dict(name="deep", parent=rnd.choice(parents[1:]), leaf=False,
+                          text=parts_text(rnd, pts, A, B, fd, rnd.randint(1, 3), rnd.random() < 0.5)))
+        parents.append("deep")
+    typedefs = list(nodes)
+    leaves = [dict(name="see_" + p, parent=p, text=None, leaf=True) for p in parents if rnd.random() < 0.6]
+    for ti in range(rnd.randint(1, 3)):
+        text = parts_text(rnd, pts, A, B, fd, rnd.randint(1, 3), rnd.random() < 0.3)
+        users = rnd.sample(parents, min(len(parents), rnd.randint(2, 4)))
+        if "whole" not in users and rnd.random() < 0.8:
+            users[0] = "whole"
+        for ui, u in enumerate(users):
+            if rnd.random() < 0.25:     # through a typedef of its own
+                leaves.append(dict(name="td%d_%d" % (ti, ui), parent=u, text=text, leaf=False))
+                leaves.append(dict(name="lt%d_%d" % (ti, ui), parent="td%d_%d" % (ti, ui), text=None, leaf=True))
+            else:
+                leaves.append(dict(name="l%d_%d" % (ti, ui), parent=u, text=text, leaf=True))
+        if rnd.random() < 0.3 and (A, B) == (KLO, KHI):
+            leaves.append(dict(name="lb%d" % ti, parent=kind, text=text, leaf=True))
+    order = rnd.random()
+    if order < 0.4:
+        rnd.shuffle(leaves)
+        nodes = typedefs + leaves
+    elif order < 0.7:
+        rnd.shuffle(leaves)
+        rnd.shuffle(typedefs)
+        nodes = leaves + typedefs
+    else:
+        nodes = typedefs + leaves
+        rnd.shuffle(nodes)
+    return dict(name="m%d" % idx, kind=kind, fd=fd, nodes=nodes)
+
+
+def fixed_families():
+    """same outer bounds, different interior, byte-identical restriction on both, in both statement orders"""
+    out = []
+
+    def fam(kind, fd, whole, holed, text):
+        for swap in (0, 1):
+            ls = [dict(name="first", parent="whole", text=text, leaf=True), dict(name="second", parent="holed", text=text, leaf=True)]
+            out.append(dict(name="f%d" % len(out), kind=kind, fd=fd, nodes=[
+                dict(name="whole", parent=kind, text=whole, leaf=False), dict(name="holed", parent="whole", text=holed, leaf=False)]
+                + (ls[::-1] if swap else ls)))
+    for kind, (lo, hi) in INT_KINDS.items():
+        a = max(lo, 1)
+        fam(kind, 0, "%d..%d" % (a, a + 99), "%d..%d | %d..%d" % (a, a + 9, a + 89, a + 99), "%d..%d" % (a + 4, a + 94))
+        fam(kind, 0, "%d..%d" % (a, a + 99), "%d..%d | %d..%d" % (a, a + 9, a + 89, a + 99), "min..%d | %d..max" % (a + 49, a + 94))
+        fam(kind, 0, None, "min..%d | %d..max" % (lo + 10, hi - 10), "%d..%d" % (lo + 5, hi - 5))
+        fam(kind, 0, None, "min..%d | %d..max" % (lo + 10, hi - 10), "min..%d|%d..max" % (lo + 2, hi - 2))
+    for kind in LEN_KINDS:
+        fam(kind, 0, "0..64", "0..8 | 32..64", "4..40")
+        fam(kind, 0, None, "0..8 | 32..max", "4..40")
+        fam(kind, 0, "min..max", "min..8 | 18446744073709551605..max", "min..max")
+    for fd in (1, 2, 9, 17, 18):
+        fam("decimal64", fd, "-5..5", "-5..-1 | 1..5", "-2.5..2.5")
+        fam("decimal64", fd, None, "min..-1 | 1..max", "-2.5..2.5")
+        fam("decimal64", fd, None, "min..-1 | 1..max", "min..max")
+    return out
+
+
+def run_modules(res, tier, seed):
+    rnd = random.Random(seed * 7919 + 10)
+    mods = fixed_families() + [gen_family(rnd, i) for i in range(700 if tier == "quick" else 12000)]
+    evals = model_fold(mods)
+    prune(mods, rnd)
+    golines = lib.run_go([go_line(m) for m in mods])
+    mism, rejected, leaves, restr = 0, 0, 0, 0
+    kinds = {}
+    for mod, g in zip(mods, golines):
+        kinds[mod["kind"]] = kinds.get(mod["kind"], 0) + 1
+        rejected += mod["reject"] is not None
+        leaves += sum(1 for n in mod["nodes"] if n["leaf"])
+        restr += sum(1 for n in mod["nodes"] if n["text"] is not None)
+        d = compare_mod(mod, g)
+        if d:
+            mism += 1
+            if mism <= 3:
+                res.violation("resolved range/length of a module differs from the proved model folded along the derivation chain: %s\n%s"
+                              % (d, render_mod(mod)[:1500]),
+                              dict(kind="module", module=dict(name=mod["name"], kind=mod["kind"], fd=mod["fd"],
+                                                               nodes=[dict(name=n["name"], parent=n["parent"], text=n["text"], leaf=n["leaf"])
+                                                                      for n in mod["nodes"]])))
+    return dict(modules=len(mods), model_links=evals, restrictions_checked=restr, leaves_compared=leaves, modules_with_one_rejected=rejected,
+                mismatches=mism, by_kind=kinds, sample_module=render_mod(mods[len(mods) // 2]),
+                rule="modules with typedef derivation chains (8 integer kinds, string/binary lengths, decimal64 at fd {1,2,3,9,17,18}) whose sets have "
+                     "interior gaps; several leaves/typedefs restrict DIFFERENT parents with byte-identical texts (numerals and min/max), statement "
+                     "order varied; each module is parsed once and Process is run twice in one Modules value; model = Range.parseChildRanges folded "
+                     "along each chain from the builtin base; Process error <=> the model rejects the (single) offending restriction; otherwise every "
+                     "leaf's resolved part list equals the model's by value")
+
+
 def run(res, tier, seed, proof):
     cases = gen(tier, seed)
     go, ml, mism, skipped = simple_run(lib, res, cases, canon=canon_numline)
@@ -130,11 +443,25 @@ def run(res, tier, seed, proof):
                     "(all 18 in thorough); malformed stream; non-trivial = text longer than 3 bytes; observable = error or list of (min,max) by value",
                mismatches=mism, skipped_unmodelled=skipped, distribution=dict(impl_outcomes=outs, accepted_multi_part=multi),
                samples=[cases[100], cases[len(cases) // 2], cases[-40]], sample_observations=[go[100], go[len(cases) // 2], go[-40]])
+    mcov = run_modules(res, tier, seed)
+    cov["evaluations"] += mcov["modules"]
+    cov["mismatches"] += mcov["mismatches"]
+    cov["module_level"] = mcov
     return cov, ["strings.Split/TrimSpace and strconv as modelled; sort.Sort returns a sorted permutation (modelled as insertion sort); "
                  "-0 and 0 are identified in the comparison"]
 
 
 def replay(rep, res):
+    if rep.get("kind") == "module":
+        mod = rep["module"]
+        model_fold([mod])
+        bad = [n["name"] for n in mod["nodes"] if n["m"][0] == "err"]
+        mod["reject"] = bad[0] if bad else None
+        mod["nodes"] = [n for n in mod["nodes"] if n["m"][0] == "ok" or n["name"] == mod["reject"]]
+        g = lib.run_go([go_line(mod)])[0]
+        d = compare_mod(mod, g)
+        print(render_mod(mod), "\nmodel:", [(n["name"], n["m"]) for n in mod["nodes"]], "\nimpl :", g[:1500], "\n=>", d or "agree")
+        return 1 if d else 0
     c = rep["case"]
     go, ml = lib.run_go([c])[0], lib.run_ml([c])[0]
     print("case :", c, "\nimpl :", go, "\nmodel:", ml)
